@@ -11,7 +11,7 @@ from vf import foamdict, hexconv, lattice, util
 ID = "C01"
 BUDGET = {"quick": 4000, "thorough": 120000}
 REQUIRED = ["outcome:success", "outcome:InconsistentGradingsError", "outcome:UndefinedGradingsError",
-            "judged:edge-with-2+-blocks", "judged:wires-vs-written", "judged:second-write"]
+            "judged:edge-with-2+-blocks", "judged:wires-vs-written", "judged:second-write", "judged:assembly-with-merged-pair"]
 MIN_KEYS = 40
 RULE = (
     "random sub-assemblies of a jittered <=3x3x2 lattice (face / edge-only / vertex-only contacts), each block "
@@ -80,6 +80,8 @@ def place_chops(rng, case, mode):
 def gen_case(ctx):
     rng = ctx.rng
     case = lattice.gen_assembly(rng)
+    if rng.random() < 0.2:
+        lattice.add_merged_pair(rng, case)  # cuts the count families at the merged interface
     mode = rng.choices(["well", "conflict", "missing"], [0.55, 0.3, 0.15])[0]
     place_chops(rng, case, mode)
     return case
@@ -131,12 +133,14 @@ def run_case(ctx, case):
     ctx.sample({"dims": case["dims"], "blocks": [{"cell": b["cell"], "perm": b["perm"], "chops": b["chops"]}
                                                  for b in case["blocks"]], "predicted": outcome, "observed": got})
     ctx.count(f"outcome:{got}")
+    if case.get("merges"):
+        ctx.count("judged:assembly-with-merged-pair")
     nb, nface, nedge, nvert = lattice.contact_summary(case)
     shared_family = any(len({m[0] for m in members}) >= 2 for members in fam.values())
     pattern = sorted(
         ("none" if c is None else c if isinstance(c, str) else "count") + f"x{len(fam[r])}" for r, c in fam_counts.items()
     )
-    ctx.key([nb, nface, nedge, nvert, pattern, outcome], nontrivial=(nface + nedge > 0 and shared_family))
+    ctx.key([nb, nface, nedge, nvert, pattern, outcome, bool(case.get("merges"))], nontrivial=(nface + nedge > 0 and shared_family))
 
     if got != "success" and os.path.exists(path):
         ctx.violation("file-left-behind-by-failed-write", f"write raised {got} but {path} exists")
